@@ -259,6 +259,9 @@ func (q *PathQuery) inlineCommon(st *PathState, call ssa.CallInstruction, retKey
 				if tag := q.Event(in); tag != "" {
 					evs = addEvent(evs, Event{in, tag})
 				}
+				for _, t := range syncClosureTags(in, q.Event) {
+					evs = addEvent(evs, Event{in, t})
+				}
 			}
 		}
 		rets := make(map[*ssa.Call][]ssa.Value, len(st.rets)+1)
